@@ -26,6 +26,8 @@ def decl_to_spec(d):
         s["children"] = [{"interest": c["interest"], "mode": c["mode"]} for c in d["children"]]
     if d.get("synth"):
         s["synth"] = list(d["synth"])
+    if d.get("ondrop"):
+        s["ondrop"] = 1
     return s
 
 
